@@ -18,3 +18,13 @@ CONFIG = dict(
         "individuals are opaque tags; RefCell borrow of Populations inside State not modelled here (C02)"],
     assumptions=["SplitMix64-seeded generator; itertools::interleave modelled as alternate-until-both-exhausted"],
 )
+CONFIG.update(
+    level_text=("Lean 4 theorems: the Vec-with-index-arithmetic model of Populations refines a plain stack for every finite "
+                "history (history_refines), try_peek = spec[d]?, non-panicking accessors answer None exactly when too shallow, "
+                "rotate(n) shifts exactly the top n and n rotations are the identity for every n <= height, stack ops permute "
+                "populations only, RotatePopulations errs (never panics) on insufficient height. The model is tied to /repo by "
+                "running the real Populations/State/components on exhaustive short and seeded long histories and diffing against "
+                "the compiled model (K) and the abstract stack (O)."),
+    level_note=("Trusted: Lean kernel; Vec/slice primitives represented by list semantics; harness + driver printing. "
+                "Individuals are opaque tags. The theorem is about the model; agreement with the code is checked on the generated histories only."),
+)
